@@ -5,6 +5,12 @@ Tie (model ↔ code):
     file is parsed into a term and compared structurally with `written` of the Lean model (`sym.run`): names = MAC towers of the
     digest, chunk key = KDF(shared key, shared salt, digest), snapshot = {chunks: enc(KDF(…, hash(enc data)), table), data:
     enc(user key, data)}, key = {kdf, salt, enc(KDF(password, salt), private)}; also which chunks are uploaded at all.
+  * history-level restore (`C14.restore_after_run*`, `names_unique`, `store_is_map`) — after every symbolic history EVERY remaining
+    snapshot is listed (`_load_snapshots` by name) and restored by the real code with EVERY key of the repository; `sym.run_restore`
+    runs `wfHist`, `loadBodies` and `restoreMd` of the model on the store `run` produces for the mirrored history; compared: is the
+    history well formed, which snapshots remain, chunk tables, data visibility, restored path → (bytes assembled from the model's
+    parts, mtime of the model's metadata record).  Ground truth (direct oracle): the owner gets the snapshotted tree with the source
+    mtimes, a key of the same family the table without data, a key of another family nothing.
   * `sym.b64` / `sym.type_reverse` vs `base64` / `utils.type_hint` / `utils.type_reverse` / `Repository.serialize`;
     `sym.legacy` vs `Repository.restore_metadata` (os.utime recorded); `sym.unlock` vs `Repository.unlock` (right / wrong password).
 Direct oracle (byte level, supporting role — the PARTIAL part of the claim):
@@ -53,7 +59,7 @@ def w_symbolic(arg):
     common.use_rebuilt_chunker()
     r = rng_for(seed, 'C14-sym', idx)
     hist = H.gen_history(r, encrypted=r.random() < 0.7, n_ops=r.choice([4, 6, 8]))
-    obs = H.run_tagged_history(hist, 'c14s_%d' % idx)
+    obs = H.run_tagged_history(hist, 'c14s_%d' % idx, restore=True)
     obs['idx'] = idx
     return obs
 
@@ -335,7 +341,8 @@ def run(out, drv, info):
     quick = out.tier == 'quick'
     n_sym, n_read, n_write = (300, 500, 500) if quick else (1500, 3000, 3000)
     out.rule = ('cases: (a) symbolic history = settings (encrypted?, 5 ciphers, 12 hashes, 6 chunkings) × 4–8 ops of add-key (shared/independent) / snapshot (0–5 files from '
-                'shared blocks, empty files, note) / delete / clean by up to 4 keys, real Repository with tagged adapters vs sym.run; (b) replicat writes (real crypto) → '
+                'shared blocks, empty files, note) / delete / clean by up to 4 keys, real Repository with tagged adapters vs sym.run, then every remaining snapshot × '
+                'every key listed and restored by the real code vs sym.run_restore and vs the snapshotted tree; (b) replicat writes (real crypto) → '
                 'reference reader; (c) reference writer (modern / pre-1.3 metadata, chunks spanning files) → replicat restore + listings; (d) base64 / JSON hint / '
                 'restore_metadata / unlock micro ties.  non-trivial: (a) ≥ 1 snapshot with ≥ 2 files and ≥ 4 uploads, (b) ≥ 2 files and ≥ 4 objects, (c) ≥ 2 files '
                 'larger than one chunk, (d) non-empty input; distinct = hash of the case summary')
@@ -369,6 +376,26 @@ def run(out, drv, info):
                 out.disagreement(f'symbolic history #{obs["idx"]}: ' + '; '.join(bad[:3]), {'kind': 'sym', 'seed': out.seed, 'idx': obs['idx'], 'tier': out.tier})
             elif not obs['problems']:
                 out.traces_validated += 1
+            # ---- history-level restore: every remaining snapshot × every key, real readers vs model readers vs ground truth
+            rbad, rviol, rst = H.judge_restores(obs, drv)
+            out.case({'sym-restore': rst, 'idx': obs['idx']}, rst.get('owner', 0) >= 1 and rst.get('files', 0) >= 2)
+            for k in ('owner', 'shared', 'independent'):
+                out.count('sym:restore:' + k, rst.get(k, 0))
+            out.count('sym:restore:remaining-snapshots', rst.get('remaining', 0))
+            if rbad:
+                out.disagreement(f'symbolic history #{obs["idx"]} (restore after the history): ' + '; '.join(rbad[:3]),
+                                 {'kind': 'sym', 'seed': out.seed, 'idx': obs['idx'], 'tier': out.tier})
+            elif not obs['problems']:
+                out.traces_validated += 1
+            for sig, what in rviol:
+                out.violation(sig, f'symbolic history #{obs["idx"]}: {what}', {'kind': 'sym', 'seed': out.seed, 'idx': obs['idx'], 'tier': out.tier})
+        else:
+            for r in obs.get('restores', []):
+                # no driver: ground truth only
+                for ent in r['by']:
+                    if ent['key'] == r['user'] and (ent['error'] is not None or {p: v[0] for p, v in ent['files'].items()} != r['truth']):
+                        out.violation('c14:history-restore:owner-content', f'symbolic history #{obs["idx"]}: snapshot #{r["snap"]} does not restore to the snapshotted tree',
+                                      {'kind': 'sym', 'seed': out.seed, 'idx': obs['idx'], 'tier': out.tier})
     for res in rd + wr:
         if res.get('crashed'):
             out.case({'crashed': res['idx']}, False)
@@ -401,8 +428,10 @@ def replay(path, drv):
     if kind == 'sym':
         obs = _in_child(w_symbolic, (rp['seed'], rp['idx'], rp.get('tier', 'quick')))
         bad, verdict = H.judge(obs, drv) if drv is not None else ([], {})
+        rbad, rviol, rst = H.judge_restores(obs, drv) if drv is not None else ([], [], {})
         print('stats', obs['stats'], 'problems', obs['problems'][:3], 'disagreements', bad[:5])
-        return 1 if (bad or obs['problems']) else 0
+        print('restore after the history', rst, 'disagreements', rbad[:5], 'violations', rviol[:5])
+        return 1 if (bad or obs['problems'] or rbad or rviol) else 0
     if kind in ('read', 'write'):
         res = _in_child(w_ref_reads if kind == 'read' else w_ref_writes, (rp['seed'], rp['idx'], rp.get('tier', 'quick')))
         print('summary', res['summary'])
